@@ -618,3 +618,33 @@ Proof.
   do 3 eexists. split; [vm_compute; reflexivity|]. split; [vm_compute; reflexivity|]. repeat (split; [vm_compute; reflexivity|]).
   vm_compute. reflexivity.
 Qed.
+
+(* ==== uncounted top-level requests of a holder on another object ====
+   colvarbias_abf::init enables hide_Jacobian_force (user) and grid in its variables, histogram / metadynamics enable grid,
+   colvar::parse_analysis enables fdiff_velocity in another variable: plain top-level enables, nothing records that the holder
+   needs them.  In the model they are `MPrim (OpEnable v g false true false)`.  For EVERY sequence of deletions (delete bias,
+   delete variable with its biases, reset), whoever made the request and however many holders there were, a feature that is
+   not dynamic keeps its state in every object that existed: nothing is "given back" on behalf of a deleted holder. *)
+Theorem C13_deletions_keep_uncounted_requests : forall (T : tables) n (ps : list mop) m m' o g,
+  forallb deletion_op ps = true -> m_run T n ps m = Some m' ->
+  o < length (m_objs m) -> is_dynamic (feat T (cls_of (m_objs m) o) g) = false ->
+  is_enabled (m_objs m') o g = is_enabled (m_objs m) o g.
+Proof. exact deletions_keep_uncounted_requests. Qed.
+Print Assumptions C13_deletions_keep_uncounted_requests.
+
+(* non-vacuity on the real tables: two biases (objects 3 and 4) on variable 0, each requesting hide_Jacobian_force (12, user) of it by
+   a top-level enable; the first is deleted: the feature (and Jacobian_derivative, 11, that it requires) stays on *)
+Definition exh_ops : list mop :=
+  [MNewColvar (ex_avail 38) [(ex_avail 18, [(ex_avail 11, [1])])]; MNewBias (ex_avail 17) [0]; MNewBias (ex_avail 17) [0];
+   MPrim (OpEnable 0 34 false true false); MPrim (OpEnable 0 35 false true false); MPrim (OpEnable 0 0 false true false);
+   MPrim (OpEnable 3 0 false true false); MPrim (OpEnable 4 0 false true false);
+   MPrim (OpEnable 0 12 false true false); MPrim (OpEnable 0 12 false true false)].
+
+Example C13_example_uncounted_request : exists m m',
+  m_run gen_tables 40 exh_ops (m_empty 3) = Some m /\ is_enabled (m_objs m) 0 12 = true /\ rc (m_objs m) 0 12 = 0%Z /\
+  is_dynamic (feat gen_tables (cls_of (m_objs m) 0) 12) = false /\
+  m_run gen_tables 40 [MDeleteBias 3] m = Some m' /\ is_enabled (m_objs m') 0 12 = true /\ is_enabled (m_objs m') 0 11 = true /\
+  alive_in (m_info m') 3 = false /\ alive_in (m_info m') 4 = true.
+Proof.
+  do 2 eexists. split; [vm_compute; reflexivity|]. repeat (split; [vm_compute; reflexivity|]). vm_compute. reflexivity.
+Qed.
